@@ -91,7 +91,7 @@ def run_parse(desc, ctx):
     from cflib.crtp.radiodriver import RadioDriver
     from cflib.crtp.exceptions import WrongUriType
     rnd = random.Random(desc['seed'])
-    serials = ['E7E7E7E701', 'ABCDEF0123', 'RADIO00003']
+    serials = ['E7E7E7E701', 'ABCDEF0123', '0123456789', 'RADIO00003', '9876543210']
     old = cr.get_serials
     cr.get_serials = lambda: tuple(serials)
     first = None
@@ -141,9 +141,9 @@ def run_connect(desc, ctx):
     import cflib.drivers.crazyradio as cr
     rnd = random.Random(desc['seed'])
     for it in range(desc['n']):
-        serials = ['E7E7E7E701', 'ABCDEF0123']
+        serials = ['E7E7E7E701', '0123456789', 'ABCDEF0123']
         uri, exp = gen_radio_uri(rnd, serials)
-        devs = [radiosim.FakeUsbRadio(serial=serials[i] if i < 2 else 'X%09d' % i) for i in range(10)]
+        devs = [radiosim.FakeUsbRadio(serial=serials[i] if i < 3 else 'X%09d' % i) for i in range(10)]
         peer = radiosim.Peer()
         devs[exp[0]].peers[(exp[1], exp[2], exp[3])] = peer
         ob = {'err': []}
@@ -265,7 +265,8 @@ def run_dispatch(desc, ctx):
     from vf.checks.c18 import FakeSerial, FakeSocketModule, LiveSocket
     rnd = random.Random(desc['seed'])
     uris = {
-        'radio': ['radio://0/80/2M/E7E7E7E7E7', 'radio://0', 'radio://0/10/250K?rate_limit=100'],
+        'radio': ['radio://0/80/2M/E7E7E7E7E7', 'radio://0', 'radio://0/10/250K?rate_limit=100'] +
+                 ['radio://%d/%d/2M' % (d, rnd.randrange(126)) for d in range(10)],
         'usb': ['usb://0', 'usb://3'],
         'serial': ['serial://ttyFAKE0'],
         'tcp': ['tcp://192.168.4.1:5000'],
@@ -281,9 +282,9 @@ def run_dispatch(desc, ctx):
     ob = {'claims': {}}
 
     def fn(s):
-        dev = radiosim.FakeUsbRadio()
+        devs = [radiosim.FakeUsbRadio(serial='D%09d' % i) for i in range(10)]
         old = (cr._find_devices, cfusb._find_devices, tr.socket, ud.socket, getattr(tr, 'serial', None), getattr(sd, 'list_ports', None))
-        cr._find_devices = lambda serial=None: [dev]
+        cr._find_devices = lambda serial=None: list(devs)
         cfusb._find_devices = lambda: []
         fake_sock = FakeSocketModule(lambda: LiveSocket())
         tr.socket = fake_sock
